@@ -62,7 +62,11 @@ type world struct {
 
 var c17HeadersOfInterest = []string{"Content-Type", "X-Verif-Call", "X-Tenant", "X-Trace", "X-Beta", "X-Api-Key", "X-Request-Id"}
 
-func newWorld(u *JobUnit) (*world, error) {
+func newWorld(u *JobUnit) (*world, error) { return newWorldOpts(u, "all") }
+
+// newWorldOpts: hooks = "all" (every service is registered with the selective error hook), "first" (only the service
+// registered first), "none".
+func newWorldOpts(u *JobUnit, hooks string) (*world, error) {
 	w := &world{clients: map[string]Client{}, byTh: map[int]*Exchange{}, seen: map[int]string{}, rpc: map[int]string{}, fail: map[int]bool{}, useMock: map[int]bool{}, mocks: map[string]Handler{}}
 	// a selective error hook, as the ErrorHandler documentation allows: validation failures get a status of the hook's choosing
 	// (no body written, no message returned), every other error is left to the defaults
@@ -73,7 +77,12 @@ func newWorld(u *JobUnit) (*world, error) {
 		}
 		return nil
 	}
-	f, err := newFixture(u.Name, hook)
+	f, err := newFixtureSel(u.Name, func(i int, _ string) Hook {
+		if hooks == "all" || (hooks == "first" && i == 0) {
+			return hook
+		}
+		return nil
+	})
 	if err != nil {
 		return nil, err
 	}
@@ -290,6 +299,36 @@ func c17Unit(j *Job, u *JobUnit) error {
 		}
 		install(w)
 		iso[i] = w.do(u, c, 0)
+	}
+	// registration options are per server: a service registered WITHOUT an error hook after one registered WITH a hook must
+	// behave as in a world where nobody has a hook (and the one with the hook as in a world where everybody has it)
+	if svcs := Services(u.Name); len(svcs) > 1 {
+		first := svcs[0].Name
+		for i, c := range alpha {
+			ref, kind := "none", "unhooked_service_after_hooked_one"
+			if c.svc == first {
+				ref, kind = "all", "hooked_service_before_unhooked_ones"
+			}
+			var got [2]obs
+			for k, mode := range []string{"first", ref} {
+				vsync.ResetOnces()
+				vsched.ResetState()
+				w, err := newWorldOpts(u, mode)
+				if err != nil {
+					return err
+				}
+				install(w)
+				got[k] = w.do(u, c, 0)
+			}
+			cell := fmt.Sprintf("%s,scenario=registration_options#%s", u.Cell, c.name)
+			if got[0] != got[1] {
+				t.viol(cell, "registration_options_leak", fmt.Sprintf("call %s (%s): with only %s registered with an error hook {%s}, in a world where %s services have the hook {%s}", c.name, kind, first, got[0], ref, got[1]), []string{c.name})
+				t.hit(u.Cell+",scenario=registration_options", "registration_options_leak", true)
+			} else {
+				t.hit(u.Cell+",scenario=registration_options", "options_stay_with_their_server", true)
+			}
+			_ = i
+		}
 	}
 	bound := 2
 	if j.Thorough {
